@@ -84,7 +84,7 @@ def parseInstrs : List Tok → List Obj → List Instr × List Obj
 
 /-- A font as far as the text model needs it (C06/C07 own the rest).
 * simple fonts: one-byte codes, `widths[code - first]` else `missing`, glyph space = 1/1000;
-* Type 3: `hscale`/`vscale` come from the FontMatrix, `descent` from the FontBBox;
+* Type 3: `fm` is the FontMatrix (glyph space → text space), `descent` comes from the FontBBox;
 * CID fonts (`multibyte`): two-byte codes (Identity CMap), no word spacing; with a vertical CMap
   (`vertical`) `widths` holds the vertical displacement `w1y` per CID (`missing` = DW2[1]) and
   `disps` the position vector `(vx, vy)` per CID (`dvy` = DW2[0] when the CID has none). -/
@@ -94,8 +94,7 @@ structure Font where
   widths : List Rat
   missing : Rat
   descent : Rat
-  hscale : Rat
-  vscale : Rat
+  fm : Option Matrix
   multibyte : Bool
   vertical : Bool
   disps : List (Rat × Rat)
@@ -104,7 +103,20 @@ structure Font where
 
 /-- The font `PDFResourceManager.get_font(None, {})` builds for an undefined font name:
 `/Widths` defaults to 256 zeros, no descriptor. -/
-def Font.fallback : Font := ⟨"unknown", 0, List.replicate 256 0, 0, 0, 1 / 1000, 1 / 1000, false, false, [], 880⟩
+def Font.fallback : Font := ⟨"unknown", 0, List.replicate 256 0, 0, 0, none, false, false, [], 880⟩
+
+/-- Horizontal scale from glyph space to text space: 1/1000, except for a Type 3 font where a
+glyph-space displacement `(w, 0)` becomes `(w·a, w·b)` under the FontMatrix `[a b c d e f]` (9.6.5). -/
+def Font.hscale (f : Font) : Rat :=
+  match f.fm with
+  | none => 1 / 1000
+  | some m => m.1
+
+/-- Vertical scale: 1/1000, resp. the `d` entry of the FontMatrix. -/
+def Font.vscale (f : Font) : Rat :=
+  match f.fm with
+  | none => 1 / 1000
+  | some m => m.2.2.2.1
 
 /-- Glyph-space width of a character code / CID: `Widths[code - FirstChar]`, else `MissingWidth`
 (vertical CID fonts: `w1y` from W2, else DW2[1]). -/
